@@ -401,3 +401,348 @@ func (c Config) YAML() string {
 	}
 	return b.String()
 }
+
+// ---------------------------------------------------------------------------------------
+// alternative spellings of the same document (the meaning of a configuration must not depend on YAML style)
+
+func isPlainSafe(s string) bool {
+	if s == "" || len(s) > 40 {
+		return false
+	}
+	for i, c := range s {
+		switch {
+		case c >= 'a' && c <= 'z', c >= 'A' && c <= 'Z':
+		case c >= '0' && c <= '9', c == '_', c == '/':
+			if i == 0 {
+				return false
+			}
+		case c == '.', c == '-':
+			if i == 0 || i == len(s)-1 {
+				return false
+			}
+		default:
+			return false
+		}
+	}
+	switch strings.ToLower(s) {
+	case "null", "true", "false", "yes", "no", "on", "off", "y", "n", "nan", "inf":
+		return false
+	}
+	// anything that could be read as a number or a date stays quoted
+	if _, err := strconv.ParseFloat(s, 64); err == nil {
+		return false
+	}
+	return !(s[0] >= '0' && s[0] <= '9')
+}
+
+// scalarStyled spells a string scalar: plain when that is safe, single-quoted when it has no quote or escape, else double-quoted.
+func scalarStyled(s string, style int) string {
+	if style == 2 {
+		if isPlainSafe(s) {
+			return s
+		}
+		ok := s != ""
+		for _, c := range s {
+			if c == '\'' || c < 0x20 || c == 0x7f || c > 0x7e {
+				ok = false
+			}
+		}
+		if ok {
+			return "'" + s + "'"
+		}
+	}
+	return QuoteYAML(s)
+}
+
+func valStyled(v Val, style int) string {
+	if v.Kind == "str" {
+		return scalarStyled(v.S, style)
+	}
+	return v.Text
+}
+
+// YAMLStyle renders the same configuration in another YAML style:
+// 1 = one flow (JSON-like) document, 2 = block style with plain/single-quoted scalars, block sequences, comments and document markers,
+// 3 = style 0 with CRLF line endings and a byte order mark.
+func (c Config) YAMLStyle(style int) string {
+	switch style {
+	case 1:
+		return c.flow()
+	case 2:
+		return c.block()
+	case 3:
+		return "\ufeff" + strings.ReplaceAll(c.YAML(), "\n", "\r\n")
+	}
+	return c.YAML()
+}
+
+func flowList(vs []Val) string {
+	parts := make([]string, len(vs))
+	for i, v := range vs {
+		parts[i] = v.YAML()
+	}
+	return "[" + strings.Join(parts, ",") + "]"
+}
+
+func (c Config) flow() string {
+	var top []string
+	if c.Version != nil {
+		top = append(top, `"version": `+c.Version.YAML())
+	}
+	if !c.Meta.Empty() {
+		var m []string
+		if c.Meta.Pkg != nil {
+			m = append(m, `"pkg": `+QuoteYAML(*c.Meta.Pkg))
+		}
+		if c.Meta.ContainerType != nil {
+			m = append(m, `"container_type": `+QuoteYAML(*c.Meta.ContainerType))
+		}
+		if c.Meta.ContainerConstructor != nil {
+			m = append(m, `"container_constructor": `+QuoteYAML(*c.Meta.ContainerConstructor))
+		}
+		if c.Meta.DefaultMustGetter != nil {
+			m = append(m, `"default_must_getter": `+boolStr(*c.Meta.DefaultMustGetter))
+		}
+		ks := func(name string, l []KS) {
+			if len(l) == 0 {
+				return
+			}
+			var p []string
+			for _, kv := range l {
+				p = append(p, QuoteYAML(kv.K)+": "+QuoteYAML(kv.V))
+			}
+			m = append(m, `"`+name+`": {`+strings.Join(p, ", ")+"}")
+		}
+		ks("imports", c.Meta.Imports)
+		ks("functions", c.Meta.Functions)
+		top = append(top, `"meta": {`+strings.Join(m, ", ")+"}")
+	}
+	if len(c.Params) > 0 {
+		var p []string
+		for _, kv := range c.Params {
+			p = append(p, QuoteYAML(kv.K)+": "+kv.V.YAML())
+		}
+		top = append(top, `"parameters": {`+strings.Join(p, ", ")+"}")
+	}
+	if len(c.Services) > 0 {
+		var ss []string
+		for _, s := range c.Services {
+			var a []string
+			add := func(k, v string) { a = append(a, `"`+k+`": `+v) }
+			if s.Todo != nil {
+				add("todo", boolStr(*s.Todo))
+			}
+			if s.Getter != nil {
+				add("getter", QuoteYAML(*s.Getter))
+			}
+			if s.MustGetter != nil {
+				add("must_getter", boolStr(*s.MustGetter))
+			}
+			if s.Type != nil {
+				add("type", QuoteYAML(*s.Type))
+			}
+			if s.Value != nil {
+				add("value", QuoteYAML(*s.Value))
+			}
+			if s.Constructor != nil {
+				add("constructor", QuoteYAML(*s.Constructor))
+			}
+			if s.Args != nil {
+				add("arguments", flowList(s.Args))
+			}
+			if s.Calls != nil {
+				var cs []string
+				for _, cl := range s.Calls {
+					switch {
+					case cl.NoArgs:
+						cs = append(cs, "["+QuoteYAML(cl.Method)+"]")
+					case cl.Wither == nil:
+						cs = append(cs, "["+QuoteYAML(cl.Method)+", "+flowList(cl.Args)+"]")
+					default:
+						cs = append(cs, "["+QuoteYAML(cl.Method)+", "+flowList(cl.Args)+", "+boolStr(*cl.Wither)+"]")
+					}
+				}
+				add("calls", "["+strings.Join(cs, ", ")+"]")
+			}
+			if s.Fields != nil {
+				var fs []string
+				for _, f := range s.Fields {
+					fs = append(fs, QuoteYAML(f.K)+": "+f.V.YAML())
+				}
+				add("fields", "{"+strings.Join(fs, ", ")+"}")
+			}
+			if s.Tags != nil {
+				var ts []string
+				for _, t := range s.Tags {
+					if t.Prio == nil {
+						ts = append(ts, QuoteYAML(t.Name))
+					} else {
+						ts = append(ts, fmt.Sprintf(`{"priority": %d, "name": %s}`, *t.Prio, QuoteYAML(t.Name)))
+					}
+				}
+				add("tags", "["+strings.Join(ts, ", ")+"]")
+			}
+			if s.Scope != nil {
+				add("scope", QuoteYAML(*s.Scope))
+			}
+			ss = append(ss, QuoteYAML(s.Name)+": {"+strings.Join(a, ", ")+"}")
+		}
+		top = append(top, `"services": {`+strings.Join(ss, ", ")+"}")
+	}
+	if len(c.Decorators) > 0 {
+		var ds []string
+		for _, d := range c.Decorators {
+			x := `{"decorator": ` + QuoteYAML(d.Decorator) + `, "tag": ` + QuoteYAML(d.Tag)
+			if d.Args != nil {
+				x += `, "arguments": ` + flowList(d.Args)
+			}
+			ds = append(ds, x+"}")
+		}
+		top = append(top, `"decorators": [`+strings.Join(ds, ", ")+"]")
+	}
+	return "{" + strings.Join(top, ",\n ") + "}\n"
+}
+
+func blockList(b *strings.Builder, ind string, vs []Val, style int) {
+	if len(vs) == 0 {
+		b.WriteString(" []\n")
+		return
+	}
+	b.WriteString("\n")
+	for _, v := range vs {
+		fmt.Fprintf(b, "%s- %s\n", ind, valStyled(v, style))
+	}
+}
+
+func (c Config) block() string {
+	var b strings.Builder
+	b.WriteString("# generated by the verification workload: block style\n---\n")
+	if c.Version != nil {
+		fmt.Fprintf(&b, "version: %s   # trailing comment\n", c.Version.YAML())
+	}
+	if !c.Meta.Empty() {
+		b.WriteString("meta:\n")
+		if c.Meta.Pkg != nil {
+			fmt.Fprintf(&b, "    pkg: %s\n", scalarStyled(*c.Meta.Pkg, 2))
+		}
+		if c.Meta.ContainerType != nil {
+			fmt.Fprintf(&b, "    container_type: %s\n", scalarStyled(*c.Meta.ContainerType, 2))
+		}
+		if c.Meta.ContainerConstructor != nil {
+			fmt.Fprintf(&b, "    container_constructor: %s\n", scalarStyled(*c.Meta.ContainerConstructor, 2))
+		}
+		if c.Meta.DefaultMustGetter != nil {
+			fmt.Fprintf(&b, "    default_must_getter: %s\n", boolStr(*c.Meta.DefaultMustGetter))
+		}
+		if len(c.Meta.Imports) > 0 {
+			b.WriteString("    imports:\n")
+			for _, kv := range c.Meta.Imports {
+				fmt.Fprintf(&b, "        %s: %s\n", scalarStyled(kv.K, 2), scalarStyled(kv.V, 2))
+			}
+		}
+		if len(c.Meta.Functions) > 0 {
+			b.WriteString("    functions:\n")
+			for _, kv := range c.Meta.Functions {
+				fmt.Fprintf(&b, "        %s: %s\n", scalarStyled(kv.K, 2), scalarStyled(kv.V, 2))
+			}
+		}
+	}
+	if len(c.Params) > 0 {
+		b.WriteString("\nparameters:\n")
+		for _, kv := range c.Params {
+			fmt.Fprintf(&b, "  %s: %s\n", scalarStyled(kv.K, 2), valStyled(kv.V, 2))
+		}
+	}
+	if len(c.Services) > 0 {
+		b.WriteString("\nservices:\n")
+		for _, s := range c.Services {
+			if !s.hasAttrs() {
+				fmt.Fprintf(&b, "  %s: {}\n", scalarStyled(s.Name, 2))
+				continue
+			}
+			fmt.Fprintf(&b, "  %s:\n", scalarStyled(s.Name, 2))
+			ind := "      "
+			if s.Scope != nil {
+				fmt.Fprintf(&b, "%sscope: %s\n", ind, scalarStyled(*s.Scope, 2))
+			}
+			if s.Tags != nil {
+				fmt.Fprintf(&b, "%stags:", ind)
+				if len(s.Tags) == 0 {
+					b.WriteString(" []\n")
+				} else {
+					b.WriteString("\n")
+					for _, t := range s.Tags {
+						if t.Prio == nil {
+							fmt.Fprintf(&b, "%s  - %s\n", ind, scalarStyled(t.Name, 2))
+						} else {
+							fmt.Fprintf(&b, "%s  - name: %s\n%s    priority: %d\n", ind, scalarStyled(t.Name, 2), ind, *t.Prio)
+						}
+					}
+				}
+			}
+			if s.Fields != nil {
+				fmt.Fprintf(&b, "%sfields:", ind)
+				if len(s.Fields) == 0 {
+					b.WriteString(" {}\n")
+				} else {
+					b.WriteString("\n")
+					for _, f := range s.Fields {
+						fmt.Fprintf(&b, "%s  %s: %s\n", ind, scalarStyled(f.K, 2), valStyled(f.V, 2))
+					}
+				}
+			}
+			if s.Calls != nil {
+				fmt.Fprintf(&b, "%scalls:", ind)
+				if len(s.Calls) == 0 {
+					b.WriteString(" []\n")
+				} else {
+					b.WriteString("\n")
+					for _, cl := range s.Calls {
+						fmt.Fprintf(&b, "%s  -\n%s    - %s\n", ind, ind, scalarStyled(cl.Method, 2))
+						if !cl.NoArgs {
+							fmt.Fprintf(&b, "%s    -", ind)
+							blockList(&b, ind+"      ", cl.Args, 2)
+							if cl.Wither != nil {
+								fmt.Fprintf(&b, "%s    - %s\n", ind, boolStr(*cl.Wither))
+							}
+						}
+					}
+				}
+			}
+			if s.Args != nil {
+				fmt.Fprintf(&b, "%sarguments:", ind)
+				blockList(&b, ind+"  ", s.Args, 2)
+			}
+			if s.Constructor != nil {
+				fmt.Fprintf(&b, "%sconstructor: %s\n", ind, scalarStyled(*s.Constructor, 2))
+			}
+			if s.Value != nil {
+				fmt.Fprintf(&b, "%svalue: %s\n", ind, scalarStyled(*s.Value, 2))
+			}
+			if s.Type != nil {
+				fmt.Fprintf(&b, "%stype: %s\n", ind, scalarStyled(*s.Type, 2))
+			}
+			if s.MustGetter != nil {
+				fmt.Fprintf(&b, "%smust_getter: %s\n", ind, boolStr(*s.MustGetter))
+			}
+			if s.Getter != nil {
+				fmt.Fprintf(&b, "%sgetter: %s\n", ind, scalarStyled(*s.Getter, 2))
+			}
+			if s.Todo != nil {
+				fmt.Fprintf(&b, "%stodo: %s\n", ind, boolStr(*s.Todo))
+			}
+		}
+	}
+	if len(c.Decorators) > 0 {
+		b.WriteString("\ndecorators:\n")
+		for _, d := range c.Decorators {
+			fmt.Fprintf(&b, "  - decorator: %s\n    tag: %s\n", scalarStyled(d.Decorator, 2), scalarStyled(d.Tag, 2))
+			if d.Args != nil {
+				b.WriteString("    arguments:")
+				blockList(&b, "      ", d.Args, 2)
+			}
+		}
+	}
+	b.WriteString("...\n")
+	return b.String()
+}
